@@ -315,7 +315,7 @@ func (r *RPCExecuteProgramResponse) DecodeFrom(d *types.Decoder) {
 	// so that memory is only allocated for data that actually arrives
 	r.Output = make([]byte, 0, min(r.OutputLength, 1<<16))
 	for rem := r.OutputLength; rem > 0 && d.Err() == nil; {
-		n := min(rem, 1<<20)
+		n := min(rem, 1<<16)
 		r.Output = append(r.Output, make([]byte, n)...)
 		d.Read(r.Output[uint64(len(r.Output))-n:])
 		rem -= n
